@@ -7,6 +7,7 @@ package flags
 import (
 	"fmt"
 	"reflect"
+	"sort"
 	"strconv"
 	"strings"
 	"time"
@@ -151,13 +152,10 @@ func convertToString(val reflect.Value, options multiTag) (string, error) {
 
 		return ret + "]", nil
 	case reflect.Map:
-		ret := "{"
+		// Render the entries in a stable order (map iteration is random)
+		items := make([]string, 0, val.Len())
 
-		for i, key := range val.MapKeys() {
-			if i != 0 {
-				ret += ", "
-			}
-
+		for _, key := range val.MapKeys() {
 			keyitem, err := convertToString(key, options)
 
 			if err != nil {
@@ -170,10 +168,12 @@ func convertToString(val reflect.Value, options multiTag) (string, error) {
 				return "", err
 			}
 
-			ret += keyitem + ":" + item
+			items = append(items, keyitem+":"+item)
 		}
 
-		return ret + "}", nil
+		sort.Strings(items)
+
+		return "{" + strings.Join(items, ", ") + "}", nil
 	case reflect.Ptr:
 		return convertToString(reflect.Indirect(val), options)
 	case reflect.Interface:
